@@ -20,7 +20,7 @@ from hashlib import md5
 from zope.interface import Interface, implementer
 
 from twisted.cred import error
-from twisted.cred._digest import calcHA1, calcHA2, calcResponse
+from twisted.cred._digest import algorithms, calcHA1, calcHA2, calcResponse
 from twisted.python.compat import nativeString, networkString
 from twisted.python.deprecate import deprecatedModuleAttribute
 from twisted.python.randbytes import secureRandom
@@ -136,6 +136,25 @@ class DigestedCredentials:
         self.realm = realm
         self.fields = fields
 
+    def _responseIsComputable(self):
+        """
+        Whether the fields of this response name a supported algorithm and
+        quality of protection and carry every value the response digest is
+        computed over.  A response for which this is false can match no
+        password (and no hash), so it is rejected rather than letting
+        C{KeyError} or C{TypeError} escape from the digest calculation.
+
+        @rtype: L{bool}
+        """
+        algo = self.fields.get("algorithm", b"md5").lower()
+        return (
+            algo in algorithms
+            and self.fields.get("nonce") is not None
+            and self.fields.get("uri") is not None
+            and self.fields.get("qop", b"auth") != b"auth-int"
+            and (algo != b"md5-sess" or self.fields.get("cnonce") is not None)
+        )
+
     def checkPassword(self, password):
         """
         Verify that the credentials represented by this object agree with the
@@ -143,6 +162,9 @@ class DigestedCredentials:
         response hash represented by this object was generated and comparing
         the results.
         """
+        if not self._responseIsComputable():
+            return False
+
         response = self.fields.get("response")
         uri = self.fields.get("uri")
         nonce = self.fields.get("nonce")
@@ -171,6 +193,9 @@ class DigestedCredentials:
         @param digestHash: A precomputed H(A1) value based on the username,
             realm, and password associate with this credentials object.
         """
+        if not self._responseIsComputable():
+            return False
+
         response = self.fields.get("response")
         uri = self.fields.get("uri")
         nonce = self.fields.get("nonce")
@@ -316,7 +341,16 @@ class DigestCredentialFactory:
             clientip = clientip.encode("ascii")
 
         # Verify the key
-        key = base64.b64decode(opaqueParts[1])
+        try:
+            key = base64.b64decode(opaqueParts[1])
+        except ValueError:
+            # binascii.Error: the opaque was truncated or otherwise damaged
+            raise error.LoginFailed("Invalid response, invalid opaque value")
+        if base64.b64encode(key) != opaqueParts[1]:
+            # b64decode skips bytes outside the alphabet and ignores anything
+            # after the padding, so an altered opaque can decode to the key of
+            # one we issued.  Only the exact encoding we generate is ours.
+            raise error.LoginFailed("Invalid response, invalid opaque value")
         keyParts = key.split(b",")
 
         if len(keyParts) != 3:
@@ -377,7 +411,10 @@ class DigestCredentialFactory:
         auth = {}
         for key, bare, quoted in parts:
             value = (quoted or bare).strip()
-            auth[nativeString(key.strip())] = value
+            try:
+                auth[nativeString(key.strip())] = value
+            except UnicodeError:
+                raise error.LoginFailed("Invalid response, non-ASCII field name.")
 
         username = auth.get("username")
         if not username:
